@@ -384,9 +384,14 @@ def _struct(repo, col):
                 body = fn_t.args[0]
             elif fn_t.op == "localfn" and fn_t.name in owner_ex.nested:
                 ne = owner_ex.nested[fn_t.name]
-                params_ = ne.fi.params
+                a_ = ne.fi.node.args
+                pos_ = [x.arg for x in a_.posonlyargs + a_.args]
+                dflt = dict(zip(pos_[len(pos_) - len(a_.defaults):], a_.defaults)) if a_.defaults else {}
+                # tree_map calls the leaf function with the leaves only: parameters with a constant default keep that default
+                const_d = {k: T("const", v.value) for k, v in dflt.items() if isinstance(v, ast.Constant)}
+                params_ = [p_ for p_ in pos_ if p_ not in dflt]
                 mr = ne.merged_return()
-                body = canon(idx.subst(mr, binds)) if mr is not None else None
+                body = canon(idx.subst(mr, {**const_d, **binds})) if (mr is not None and len(const_d) == len(dflt)) else None
             if params_ is not None and len(params_) == 2 and body is not None:
                 shape = True
                 p0, p1 = params_
